@@ -54,6 +54,10 @@ POOL = [
     ("shared-exception", DOC_E, None, None, {("a", "a"): "raise_shared"}, 1, "scn"),
     ("shared-exception-other-field", DOC_E, None, None, {("color",): "raise_shared"}, 2, "scn"),
     ("enriching-its-own-library-error", DOC_E, None, None, {("color",): "raise_te_enriched"}, 1, "scn"),
+    # an abstract type spread inside a narrower abstract type (valid: the two overlap) next to a request whose runtime types lie
+    # outside that overlap: validating one document must not change what the schema's abstract types admit for another
+    ("abstract-spread-in-narrower-scope", "{ named { ... on Node { id } } }", None, None, {}, 1, "scn"),
+    ("runtime-type-outside-that-overlap", "{ node { ... on B { b } } }", None, None, {}, 1, "scn"),
 ]
 # requests for the engine with a custom error coercer that annotates the error it is given (the documented customisation pattern:
 # `error["extensions"]["..."] = ...`) and suspends in between: errors of different requests must not share what the coercer receives
